@@ -606,10 +606,13 @@ func vf10Classes(unit string, cs *vf10Case, o *vf10Out) ([]string, bool) {
 		cls = append(cls, unit+"-handshake-io-error")
 	case o.magicFound:
 		cls = append(cls, unit+"-magic-found")
-	case strings.Contains(o.readErr, "failed to find peer magic"):
-		cls = append(cls, unit+"-scan-limit-hit")
-	case strings.Contains(o.readErr, "too much pre-magic-padding"):
+	// classes by construction of the input (not by the text of the error the
+	// transport chose): the scan ended with an error after it had consumed the
+	// whole window behind the key
+	case o.readErr != "" && cs.describe == "magic-too-late" && o.consumed >= refobfs3.UDHSize+vf10Scan:
 		cls = append(cls, unit+"-magic-too-late")
+	case o.readErr != "" && o.consumed >= refobfs3.UDHSize+vf10Scan:
+		cls = append(cls, unit+"-scan-limit-hit")
 	default:
 		cls = append(cls, unit+"-scan-ended-by-io-error")
 	}
